@@ -18,7 +18,7 @@ NEWNAMES = ["renamed", "g", "foo2", "a_very_long_name_for_a_cells", "k", "defy",
 COMMENTS = ["# plain", "# def g(x): return 1", '# """', "# 'quote", "#", "#   spaced   ", "# @deco",
             "# lambda x: x", '# "', "# back\\slash", "# f(x):", "#!shebang-like", "# a # b", "# )]}",
             "# caf\u00e9 \u65e5\u672c", "# \u00fc"]
-STRS = ["'a\x0cb'", '"\u00e9t\u00e9"', "'\u65e5'", '"def q(): #"', "'#not a comment'", '"lambda x: x"', "'a\"b'", '"@x"', "'()'", '"a:b"',
+STRS = ["'a\x0cb'", "'v\x0bt'", '"fs\x1cgs\x1d"', "'nel\x85'", '"ls\u2028ps\u2029"', '"\u00e9t\u00e9"', "'\u65e5'", '"def q(): #"', "'#not a comment'", '"lambda x: x"', "'a\"b'", '"@x"', "'()'", '"a:b"',
         '"\\\\"', "'''t'q'''", '"\\n"', 'r"\\d"', '""', "'def'"]
 SAFE_DOCS = ["Short.", "Two\nlines", "with 'single' quote", 'has "inner" quotes.', "trailing space ",
              "Multi\n\n    indented\nlast\n", "", "# hash", "def f(): pass", "x" * 70, "a\n", "\nstarts with a line feed",
